@@ -3,7 +3,7 @@
   Per-step theorems (all inputs, all pre-states) + the counter-frame theorem; the statement over histories with message
   delivery (exactly-once, single-creator discipline: DESIGN App. C) is composed from them by the nonce oracle, see the end.
 -/
-import Proofs.Nonce
+import Proofs.NetworkNonce
 namespace C07
 open Esdt
 
@@ -15,83 +15,29 @@ theorem create_succ (env : Env) (c : Call) (ctx ctx' : Ctx) (out : VMOutput)
       out.ret = [beBytes n] ∧
       ctx'.accts.read c.caller (nonceKeyPrefix ++ tok) = beBytes n ∧
       ∃ qb name roy hash attrs, ctx'.accts.read c.caller (nftKey (esdtKeyPrefix ++ tok) n) =
-        nftStoredForm (createdToken c qb name roy hash attrs n) ∧ mdNonce (createdToken c qb name roy hash attrs n) = n := by
-  obtain ⟨tok, qb, name, roy, hash, attrs, n, A1, h0, _, _, _, _, _, hn, _, _, hret, hA1, hw⟩ := (nftCreate_effect env c ctx).elim h
-  refine ⟨tok, n, h0, hn, hret, ?_, qb, name, roy, hash, attrs, ?_, rfl⟩
-  · rw [hw, Accts.read_write]; simp
-  · have hne : ¬ (c.caller = c.caller ∧ nonceKeyPrefix ++ tok = nftKey (esdtKeyPrefix ++ tok) n) := by
-      rintro ⟨_, he⟩
-      have := congrArg (List.take 7) he
-      simp [nonceKeyPrefix, esdtKeyPrefix, nftKey, ascii] at this
-    rw [hw, Accts.read_write, if_neg hne, hA1, Accts.read_write, if_pos ⟨rfl, rfl⟩]
+        nftStoredForm (createdToken c qb name roy hash attrs n) ∧ mdNonce (createdToken c qb name roy hash attrs n) = n :=
+  Esdt.create_succ env c ctx ctx' out h
 
 /-- strictly increasing: below the 64-bit limit the new counter is exactly old + 1 and reads back as such -/
 theorem create_increments (env : Env) (c : Call) (ctx ctx' : Ctx) (out : VMOutput)
     (h : esdtNFTCreate env c ctx = .ok (out, ctx')) (tok : Bytes) (h0 : c.args[0]? = some tok)
     (hlim : counterOf (ctx.accts.read c.caller (nonceKeyPrefix ++ tok)) + 1 < 2 ^ 64) :
     counterOf (ctx'.accts.read c.caller (nonceKeyPrefix ++ tok)) =
-      counterOf (ctx.accts.read c.caller (nonceKeyPrefix ++ tok)) + 1 := by
-  obtain ⟨tok', n, h0', hn, _, hread, _⟩ := create_succ env c ctx ctx' out h
-  rw [h0] at h0'; cases h0'
-  have hlt : counterOf (ctx.accts.read c.caller (nonceKeyPrefix ++ tok)) + 1 < two64 := by simpa [two64] using hlim
-  rw [hread, hn, u64_of_lt _ hlt, counterOf_beBytes _ hlt]
+      counterOf (ctx.accts.read c.caller (nonceKeyPrefix ++ tok)) + 1 :=
+  Esdt.create_increments env c ctx ctx' out h tok h0 hlim
 
 /-- counters change only through the holder's own creates and through hand-overs: every other function leaves every
     nonce counter of every account untouched -/
 theorem counters_change_only_through (f : FnId) (hf : f ≠ .nftCreate ∧ f ≠ .nftCreateRoleTransfer)
     (env : Env) (c : Call) (ctx ctx' : Ctx) (out : VMOutput) (h : exec env f c ctx = .ok (out, ctx')) (a tok : Bytes) :
-    ctx'.accts.read a (nonceKeyPrefix ++ tok) = ctx.accts.read a (nonceKeyPrefix ++ tok) := by
-  unfold exec at h
-  have r := Frame.refl
-  have nokey : ∀ (t s : Bytes), nonceKeyPrefix ++ tok ≠ esdtKeyPrefix ++ t ++ s := by
-    intro t s he
-    have := congrArg (List.take 7) he
-    simp [esdtKeyPrefix, nonceKeyPrefix, ascii] at this
-  have norole : ∀ t : Bytes, nonceKeyPrefix ++ tok ≠ roleKeyPrefix ++ t := by
-    intro t he
-    have := congrArg (List.take 7) he
-    simp [nonceKeyPrefix, roleKeyPrefix, ascii] at this
-  have tf : ∀ rr, ¬ tokenFootprint rr false c a (.key (nonceKeyPrefix ++ tok)) := by
-    rintro rr ⟨_, t, _, ⟨s, hs⟩ | ⟨_, hr⟩ | ⟨hn, _⟩⟩
-    · exact nokey t s hs
-    · exact norole t hr
-    · cases hn
-  obtain ⟨h1, h2⟩ := hf
-  cases f <;> simp only [runFn] at h
-  · exact (frame_claimDeveloperRewards env c ctx _ (r _ _)).elim h a (.key _) (by simp [acctFootprint])
-  · exact (frame_changeOwnerAddress env c ctx _ (r _ _)).elim h a (.key _) (by simp [acctFootprint])
-  · exact (frame_setUserName env c ctx _ (r _ _)).elim h a (.key _) (by simp [acctFootprint])
-  · apply (frame_saveKeyValue env c ctx _ (r _ _)).elim h a (.key _)
-    simp only [skvFootprint]; rintro ⟨_, _, hal⟩
-    simp [isAllowedToSaveUnderKey, protectedPrefix, nonceKeyPrefix, ascii] at hal; omega
-  · exact (frame_esdtPause true env c ctx _ (r _ _)).elim h a (.key _) (tf _)
-  · exact (frame_esdtPause false env c ctx _ (r _ _)).elim h a (.key _) (tf _)
-  · exact (frame_esdtTransfer env c ctx _ (r _ _)).elim h a (.key _) (tf _)
-  · exact (frame_esdtBurn env c ctx _ (r _ _)).elim h a (.key _) (tf _)
-  · exact (frame_esdtFreezeWipe .freeze env c ctx _ (r _ _)).elim h a (.key _) (tf _)
-  · exact (frame_esdtFreezeWipe .unfreeze env c ctx _ (r _ _)).elim h a (.key _) (tf _)
-  · exact (frame_esdtFreezeWipe .wipe env c ctx _ (r _ _)).elim h a (.key _) (tf _)
-  · exact (frame_esdtRoles false env c ctx _ (r _ _)).elim h a (.key _) (tf _)
-  · exact (frame_esdtRoles true env c ctx _ (r _ _)).elim h a (.key _) (tf _)
-  · exact (frame_esdtLocalBurn env c ctx _ (r _ _)).elim h a (.key _) (tf _)
-  · exact (frame_esdtLocalMint env c ctx _ (r _ _)).elim h a (.key _) (tf _)
-  · exact (frame_esdtNFTAddQuantity env c ctx _ (r _ _)).elim h a (.key _) (tf _)
-  · exact (frame_esdtNFTBurn env c ctx _ (r _ _)).elim h a (.key _) (tf _)
-  · exact absurd rfl h1
-  · exact (frame_esdtNFTTransfer env c ctx _ (r _ _)).elim h a (.key _) (tf _)
-  · exact absurd rfl h2
-  · exact (frame_esdtNFTUpdateAttributes env c ctx _ (r _ _)).elim h a (.key _) (tf _)
-  · exact (frame_esdtNFTAddURI env c ctx _ (r _ _)).elim h a (.key _) (tf _)
-  · exact (frame_multiTransfer env c ctx _ (r _ _)).elim h a (.key _) (tf _)
+    ctx'.accts.read a (nonceKeyPrefix ++ tok) = ctx.accts.read a (nonceKeyPrefix ++ tok) :=
+  counters_only_through f hf env c ctx ctx' out h a tok
 
 /-- a create only moves the creator's OWN counter of the token it names -/
 theorem create_touches_only_own_counter (env : Env) (c : Call) (ctx ctx' : Ctx) (out : VMOutput)
     (h : esdtNFTCreate env c ctx = .ok (out, ctx')) (a tok : Bytes) (hne : a ≠ c.caller) :
-    ctx'.accts.read a (nonceKeyPrefix ++ tok) = ctx.accts.read a (nonceKeyPrefix ++ tok) := by
-  obtain ⟨tok', qb, name, roy, hash, attrs, n, A1, _, _, _, _, _, _, _, _, _, _, hA1, hw⟩ := (nftCreate_effect env c ctx).elim h
-  have h1 : ¬ (c.caller = a ∧ nonceKeyPrefix ++ tok' = nonceKeyPrefix ++ tok) := fun ⟨e, _⟩ => hne e.symm
-  have h2 : ¬ (c.caller = a ∧ nftKey (esdtKeyPrefix ++ tok') n = nonceKeyPrefix ++ tok) := fun ⟨e, _⟩ => hne e.symm
-  rw [hw, Accts.read_write, if_neg h1, hA1, Accts.read_write, if_neg h2]
+    ctx'.accts.read a (nonceKeyPrefix ++ tok) = ctx.accts.read a (nonceKeyPrefix ++ tok) :=
+  Esdt.create_touches_only_own_counter env c ctx ctx' out h a tok hne
 
 /-- FULL (hand-over, current holder, next holder on another shard): the old holder's counter is zeroed and its create
     role removed, and the emitted message carries the token and the OLD counter … -/
@@ -160,134 +106,6 @@ def retsOfTwo : Option (List Bytes × List Bytes) :=
 example : retsOfTwo = some ([[1]], [[2]]) := by decide +kernel
 end C07
 
-/-! ### history level: one holder, any calls by anyone, no hand-over in the history -/
-
-namespace Esdt
-
-structure HStep where
-  f : FnId
-  env : Env
-  c : Call
-
-/-- is this step a create by `h` for `tok`? -/
-def HStep.isCreate (s : HStep) (h tok : Bytes) : Bool :=
-  s.f == .nftCreate && s.c.caller == h && s.c.args[0]? == some tok
-
-def nonceOfRet (out : VMOutput) : Nat := match out.ret with | [b] => beNat b | _ => 0
-
-/-- run the steps from `A`; collect the nonces returned to `h` for `tok` (oldest first) -/
-def hrun (h tok : Bytes) : List HStep → Accts → List Nat × Accts
-  | [], A => ([], A)
-  | s :: rest, A =>
-    match exec s.env s.f s.c { accts := A } with
-    | .ok (out, ctx') =>
-      let r := hrun h tok rest ctx'.accts
-      if s.isCreate h tok then (nonceOfRet out :: r.1, r.2) else r
-    | _ => hrun h tok rest A
-
-def ctr (A : Accts) (h tok : Bytes) : Nat := counterOf (A.read h (nonceKeyPrefix ++ tok))
-
-/-- no counter of `h` for `tok` reaches 2^64 − 1 along the run (Go's uint64 would wrap to 0 there) -/
-def NoWrapAlong (h tok : Bytes) : List HStep → Accts → Prop
-  | [], A => ctr A h tok + 1 < 2 ^ 64
-  | s :: rest, A =>
-    ctr A h tok + 1 < 2 ^ 64 ∧
-    match exec s.env s.f s.c { accts := A } with
-    | .ok (_, ctx') => NoWrapAlong h tok rest ctx'.accts
-    | _ => NoWrapAlong h tok rest A
-
-theorem NoWrapAlong.head {h tok : Bytes} {steps : List HStep} {A : Accts} (hw : NoWrapAlong h tok steps A) :
-    ctr A h tok + 1 < 2 ^ 64 := by
-  cases steps with
-  | nil => exact hw
-  | cons s rest => exact hw.1
-
-/-- one successful step: the counter of (h, tok) is unchanged, or the step is a create by `h` for `tok`, the counter rose
-    by exactly one and the returned nonce is the new counter -/
-theorem hstep_counter (h tok : Bytes) (s : HStep) (hno : s.f ≠ .nftCreateRoleTransfer) (A : Accts) (out : VMOutput)
-    (ctx' : Ctx) (he : exec s.env s.f s.c { accts := A } = .ok (out, ctx')) (hw : ctr A h tok + 1 < 2 ^ 64) :
-    (s.isCreate h tok = false ∧ ctr ctx'.accts h tok = ctr A h tok) ∨
-    (s.isCreate h tok = true ∧ ctr ctx'.accts h tok = ctr A h tok + 1 ∧ nonceOfRet out = ctr A h tok + 1) := by
-  by_cases hc : s.f = .nftCreate
-  · have he' : esdtNFTCreate s.env s.c { accts := A } = .ok (out, ctx') := by
-      unfold exec at he; rw [hc] at he; simpa [runFn] using he
-    by_cases hcaller : s.c.caller = h
-    · obtain ⟨tok', n, h0, hn, hret, hread, _⟩ := C07.create_succ s.env s.c { accts := A } ctx' out he'
-      by_cases htok : tok' = tok
-      · subst htok
-        refine Or.inr ⟨by simp [HStep.isCreate, hc, hcaller, h0], ?_, ?_⟩
-        · have := C07.create_increments s.env s.c { accts := A } ctx' out he' tok' h0 (by rw [hcaller]; exact hw)
-          rw [hcaller] at this; exact this
-        · have hlt : counterOf (A.read s.c.caller (nonceKeyPrefix ++ tok')) + 1 < two64 := by
-            rw [hcaller]; simpa [two64, ctr] using hw
-          simp only [nonceOfRet, hret, beNat_beBytes, hn, u64_of_lt _ hlt]
-          rw [hcaller]; rfl
-      · refine Or.inl ⟨by simp [HStep.isCreate, h0, htok], ?_⟩
-        -- a create for another token writes (caller, nftKey tok' n) and (caller, nonce‖tok') only
-        obtain ⟨tok2, qb, name, roy, hash, attrs, n2, A1, h0', _, _, _, _, _, _, _, _, _, hA1, hwr⟩ :=
-          (nftCreate_effect s.env s.c { accts := A }).elim he'
-        rw [h0] at h0'; cases h0'
-        simp only [ctr]
-        rw [hwr, Accts.read_write, hA1, Accts.read_write]
-        have h1 : ¬ (s.c.caller = h ∧ nonceKeyPrefix ++ tok' = nonceKeyPrefix ++ tok) := by
-          rintro ⟨_, e⟩; exact htok (List.append_cancel_left e)
-        have h2 : ¬ (s.c.caller = h ∧ nftKey (esdtKeyPrefix ++ tok') n2 = nonceKeyPrefix ++ tok) := by
-          rintro ⟨_, e⟩
-          have := congrArg (List.take 7) e
-          simp [nonceKeyPrefix, esdtKeyPrefix, nftKey, ascii] at this
-        rw [if_neg h1, if_neg h2]
-    · refine Or.inl ⟨by simp [HStep.isCreate, hcaller], ?_⟩
-      simp only [ctr]
-      rw [C07.create_touches_only_own_counter s.env s.c { accts := A } ctx' out he' h tok (fun e => hcaller e.symm)]
-  · refine Or.inl ⟨by simp [HStep.isCreate, hc], ?_⟩
-    simp only [ctr]
-    rw [C07.counters_change_only_through s.f ⟨hc, hno⟩ s.env s.c { accts := A } ctx' out he h tok]
-
-/-- FULL (history level, one holder, no hand-over in the history): the nonces returned to `h` for `tok` are all above the
-    initial counter, strictly increasing, and bounded by the final counter -/
-theorem hrun_increasing (h tok : Bytes) : ∀ (steps : List HStep) (A : Accts),
-    (∀ s ∈ steps, s.f ≠ .nftCreateRoleTransfer) → NoWrapAlong h tok steps A →
-    List.Pairwise (· < ·) (hrun h tok steps A).1 ∧
-    (∀ n ∈ (hrun h tok steps A).1, ctr A h tok < n ∧ n ≤ ctr (hrun h tok steps A).2 h tok) ∧
-    ctr A h tok ≤ ctr (hrun h tok steps A).2 h tok := by
-  intro steps
-  induction steps with
-  | nil => intro A _ _; simp [hrun]
-  | cons s rest ih =>
-    intro A hno hw
-    have hno' : ∀ s' ∈ rest, s'.f ≠ .nftCreateRoleTransfer := fun s' hs' => hno s' (by simp [hs'])
-    obtain ⟨hw0, hwrest⟩ := hw
-    simp only [hrun]
-    cases he : exec s.env s.f s.c { accts := A } with
-    | ok p =>
-      obtain ⟨out, ctx'⟩ := p
-      simp only [he] at hwrest ⊢
-      obtain ⟨ih1, ih2, ih3⟩ := ih ctx'.accts hno' hwrest
-      rcases hstep_counter h tok s (hno s (by simp)) A out ctx' he hw0 with ⟨hc, hsame⟩ | ⟨hc, hinc, hret⟩
-      · simp only [hc, Bool.false_eq_true, if_false]
-        rw [hsame] at ih2 ih3
-        exact ⟨ih1, ih2, ih3⟩
-      · simp only [hc, if_true]
-        refine ⟨?_, ?_, by omega⟩
-        · refine List.pairwise_cons.mpr ⟨?_, ih1⟩
-          intro n hn
-          have := (ih2 n hn).1
-          omega
-        · intro n hn
-          rcases List.mem_cons.mp hn with rfl | hn
-          · omega
-          · have := ih2 n hn
-            omega
-    | err e' =>
-      simp only [he] at hwrest ⊢
-      exact ih A hno' hwrest
-    | panic =>
-      simp only [he] at hwrest ⊢
-      exact ih A hno' hwrest
-
-end Esdt
-
-
 namespace C07
 open Esdt
 
@@ -308,5 +126,65 @@ def bob : Bytes := List.replicate 32 2
 def skvCall : Call := { fn := fnSaveKeyValue, caller := bob, rcv := bob, args := [[107], [118]], gas := 100 }
 example : (hrun alice tk [⟨.nftCreate, sampleEnv, createCall⟩, ⟨.saveKeyValue, sampleEnv, skvCall⟩,
     ⟨.nftCreate, sampleEnv, createCall⟩] w0).1 = [1, 2] := by decide +kernel
+
+end C07
+
+/-! ### history level, the whole network, with hand-overs of the create role (Proofs/NetworkNonce.lean) -/
+
+namespace C07
+open Esdt
+
+/-- FULL (history level, across hand-overs): in a world of any number of shards, along ANY history of built-in calls by
+    anyone on any shard (all 23 functions, any arguments, failed calls rolled back) and deliveries of hand-over messages
+    that respects the single-creator discipline `CStepOK` (a transaction runs on its sender's shard; the create role of the
+    token moves only by hand-over, issued by the system contract at the current holder towards another shard; no counter
+    reaches 2^64 − 1), the nonces returned by ALL successful ESDTNFTCreate calls for the token — whoever made them, on
+    whichever shard, before or after any number of hand-overs — are strictly increasing in time, hence no two NFTs of the
+    token share a nonce; the nonces issued before the history stay a suffix of the record; and the create authority stays
+    at exactly one place (`Loc`: one account listing the role once, or one message in flight, or nowhere) -/
+theorem nonces_unique_across_handovers (e : Env) (tok : Bytes) (steps : List CStep) (w : CWorld)
+    (hI : CInv e tok w) (hok : CStepsOK e tok steps w) :
+    (crun e tok steps w).issued.Pairwise (· > ·) ∧ (crun e tok steps w).issued.Nodup ∧
+    Loc e tok (crun e tok steps w) := by
+  have h := crun_inv e tok steps w hI hok
+  exact ⟨h.sorted, h.sorted.imp (fun hab => Nat.ne_of_gt hab), h.loc⟩
+
+/-- what `CStepOK` is there for: set the create role twice on one account, hand it over once — the hand-over erases the
+    first occurrence only (`deleteRoles`, as in the code) and the old holder keeps creating -/
+example : deleteRoles [roleNFTCreate, roleNFTCreate] [roleNFTCreate] = [roleNFTCreate] := by decide
+
+/-! non-vacuity: two shards; alice (shard 1) creates, the system contract hands the role over to bob (shard 0), the message
+    is delivered, bob creates, alice tries again and is refused: nonces 1 then 2 -/
+def env2 : Env := { sampleEnv with nshards := 2 }
+def W0 : CWorld := { shards := [[], w0], flight := [], issued := [] }
+def handoverCall : Call := { fn := fnESDTNFTCreateRoleTransfer, caller := esdtSCAddress, rcv := alice, args := [tk, bob] }
+def bobCreate : Call := { createCall with caller := bob, rcv := bob }
+def st1 : CStep := .call 1 .nftCreate createCall
+def st2 : CStep := .call 1 .nftCreateRoleTransfer handoverCall
+def st3 : CStep := .deliver 0
+def st4 : CStep := .call 0 .nftCreate bobCreate
+def st5 : CStep := .call 1 .nftCreate createCall
+example : (crun env2 tk [st1, st2, st3, st4, st5] W0).issued = [2, 1] := by decide +kernel
+example : (crun env2 tk [st1, st2] W0).flight.length = 1 := by decide +kernel
+
+/-- the hypotheses of `nonces_unique_across_handovers` hold of this world and this history -/
+theorem crCnt_empty (a t : Bytes) : crCnt [] a t = 0 := by
+  simp [crCnt, rolesOf, Accts.read, Accts.get, Store.get]
+
+example : CInv env2 tk W0 := by
+  refine ⟨Loc.held 1 alice w0 rfl (by decide +kernel) ?_ rfl (by intro n hn; cases hn), List.Pairwise.nil⟩
+  intro s' A' a hs hne
+  match s', hs with
+  | 0, hs => simp [W0] at hs; subst hs; exact crCnt_empty a tk
+  | 1, hs =>
+    simp [W0] at hs; subst hs
+    have ha : ¬ a = alice := fun h => hne ⟨rfl, h⟩
+    apply (crCnt_congr (A := []) _).trans (crCnt_empty a tk)
+    unfold w0
+    rw [Accts.read_write, if_neg (fun h => ha h.1.symm)]
+  | n + 2, hs => simp [W0] at hs
+
+example : CStepsOK env2 tk [st1, st2, st3, st4, st5] W0 :=
+  cstepsOKb_sound _ _ _ _ (by decide +kernel)
 
 end C07
